@@ -437,6 +437,9 @@ func (p *Prog) globalModel(vc *FnVC, o *types.Var, name string) {
 		"github.com/ethereum/go-ethereum/common.Big256": "256",
 		"github.com/ethereum/go-ethereum/common.Big257": "257",
 	}
+	if v2, ok2 := p.bigConsts[full]; ok2 {
+		bigConsts[full] = v2
+	}
 	if v, ok := bigConsts[full]; ok {
 		vc.fact(fmt.Sprintf("(> %s 0)", name))
 		vc.decl("allocated0", "(declare-fun allocated0 (Int) Bool)")
